@@ -17,11 +17,9 @@ pub mod m0_ren1 {
       node(b, a, b) <-- if let Some(a) = Some(4), path(b, c);
       foo(a, (a + 1), a) <-- let a = 2, path(b, a) if ((*b) < 1), if (a < 6);
       bar(a, b, (a + 1)) <-- if let Some(a) = None::<i64>, node(a, (a + 0), a), foo(b, a, a), if (a < 6);
-      foo(a, c, d) <-- path(a, b), baz(b, c), path(c, d);
-      node(a, c, d) <-- path(a, b), path(b, c), baz(c, d);
-      foo((a + 1), a, a) <-- if let Some(a) = Some(4), if (a < 6);
-      edge(a) <-- if let Some(a) = Some(0), path(a, (a + 0));
-      foo(c, b, b) <-- bar(a, b, c), baz(d, e), bar(f, e, 1);
+      node(a, k, m) <-- if let Some(m) = Some(2), path(a, b), baz(b, m) let k = ((*a) + 1);
+      foo(a, b, c) <-- baz(a, b) if ((*a) < 4), path(b, c) if ((*c) != (*b));
+      baz((a + 1), a) <-- for a in [3, 4], if (a < 6);
    }
    pub struct Inst { p: Prog, pool: Option<ascent::rayon::ThreadPool> }
    pub fn make(pool: Option<usize>) -> Box<dyn Driver> {
@@ -58,21 +56,20 @@ pub mod m2_perm1 {
    use crate::common::*;
    ascent! {
       pub struct Prog;
-      relation r2(i64);
       relation r0(i64, i64);
-      relation r3(i64, i64);
       relation r1(i64);
-      relation r4(i64, i64);
+      relation r2(i64);
+      relation r3(i64, i64);
       relation r5(i64, i64);
-      r4(v0, v0) <-- r3(1, v0), r1(v1) if ((*v0) != 3), r1(0);
-      r3(v0, v2) <-- r3(0, 0), r4(0, v0) if ((*v0) <= 3), r3(((*v0) + 0), v1), if let Some(v2) = Some(((*v0) + 0));
-      r3(0, v1) <-- for v0 in 2..1, r2(v0) if (v0 < 6), r1(v1);
-      r4(v0, v8) <-- if let Some(v9) = Some(2), r0(v0, v1), r3(v1, v9) let v8 = ((*v0) + 1);
+      relation r4(i64, i64);
       r2(v2) <-- r0(0, v0) if ((*v0) <= 6) let v1 = ((*v0) + 0), let v2 = 1;
       r5(((*v0) + 1), v0) <-- r5(v0, v1), if ((*v0) < 6);
-      r4(v0, v1) <-- for v9 in 0..3, r5(v0, v1), r5(v9, v1);
-      r5(1, v0) <-- if let Some(v0) = Some(1);
       r2(3) <-- r3(v0, v1);
+      r3(v0, v2) <-- r3(0, 0), r4(0, v0) if ((*v0) <= 3), r3(((*v0) + 0), v1), if let Some(v2) = Some(((*v0) + 0));
+      r2(v0) <-- r5(v0, v1), r5(v0, v0), r5(v1, v2);
+      r4(v2, v1) <-- r2(v1) if ((*v1) < 5), r1(v2) if ((*v2) != 3), if let Some(v0) = Some(0);
+      r4(v0, v1) <-- r0(v0, v1), r3(v0, v0), r0(v1, v2);
+      r3(0, v1) <-- for v0 in 2..1, r2(v0) if (v0 < 6), r1(v1);
    }
    pub struct Inst { p: Prog, pool: Option<ascent::rayon::ThreadPool> }
    pub fn make(pool: Option<usize>) -> Box<dyn Driver> {
@@ -154,7 +151,7 @@ pub mod m5_ren0 {
       relation rel0_(i64, i64);
       relation rel1_(i64, i64);
       relation rel2_(i64, i64);
-      rel2_(x0_, x1_) <-- rel2_(x0_, x1_), rel2_(1, x2_), if ((*x0_) != 2);
+      rel2_(x0_, x1_) <-- rel2_(x0_, x1_), rel2_(x1_, x1_), if ((*x1_) != 2);
       rel2_(x1_, x1_) <-- rel0_(x0_, x1_), rel2_(x0_, x2_);
    }
    pub struct Inst { p: Prog, pool: Option<ascent::rayon::ThreadPool> }
@@ -194,8 +191,8 @@ pub mod m6_ren1 {
       relation node(i64, i64);
       node(1, a) <-- path(a, b);
       node(a, a) <-- node(3, a), node(a, b);
-      node(a, b) <-- node(a, b), node(b, c);
-      node(a, b) <-- node(a, b), node(1, c);
+      node(a, b) <-- node(a, b), node(b, b);
+      node(a, c) <-- path(a, b), node(b, c), path(c, d);
       node(a, b) <-- edge(a, b), if ((*a) == 3);
       path(1, 0);
    }
@@ -238,8 +235,8 @@ pub mod m7_i32 {
       r1(v0, v0) <-- r0(v0, v1), if ((*v0) != 100021);
       r2(v1, v1) <-- r0(v0, v1);
       r3(100014) <-- r1(100000, v0), r2(v1, v2), if ((*v0) != 100014);
-      r1(v0, v0) <-- r0(v0, v1), r2(v1, v9), if ((*v9) == 100007);
-      r1(v0, v1) <-- r0(v0, v1), r1(v9, v1);
+      r1(v0, v1) <-- r0(v0, v1), r2(v0, v0), r0(v1, v2), if ((*v2) == 100007);
+      r1(v0, v2) <-- r0(v0, v1), r1(v1, v2), r0(v2, v3);
       r3(v1) <-- r0(v0, v1), if ((*v0) == 100000);
       r1(100007, 100014);
       r1(100007, 100021);
@@ -282,13 +279,10 @@ pub mod m8_str {
       relation r2(String, String, String);
       relation r3(String, String);
       relation r4(String);
-      r1(v0, v0) <-- r0(v0), if (v0.clone() != "s3".to_string());
+      r1(v0, v0) <-- r0(v0), if (v0.clone() != "s0".to_string());
       r1(v1, v0) <-- r1(v0, v1), r0(v0);
-      r2(v0, v1, v2) <-- r3(v0, v1), r1("s1".to_string(), v2);
-      r1(v0, v0) <-- r1(v0, "s0".to_string()), if (v0.clone() != "s0".to_string());
-      r1("s0".to_string(), v0) <-- r2(v0, v1, v2), r4(v3);
-      r1("s0".to_string(), "s1".to_string()) <-- r0("s3".to_string());
-      r4(v0) <-- r4(v0), r2("s1".to_string(), v0, v0), r4(v0);
+      r4(v0) <-- r3(v0, v1), r1(v1, v2), if (v2.clone() == "s0".to_string());
+      r3(v1, v0) <-- r2("s0".to_string(), v0, v1), if (v1.clone() == "s2".to_string());
    }
    pub struct Inst { p: Prog, pool: Option<ascent::rayon::ThreadPool> }
    pub fn make(pool: Option<usize>) -> Box<dyn Driver> {
@@ -316,6 +310,88 @@ pub mod m8_str {
    }
 }
 
+#[allow(unused, non_snake_case, clippy::all)]
+pub mod m10 {
+   use ascent::*;
+   use ascent::aggregators::*;
+   use ascent::lattice::{Dual, set::Set};
+   use crate::common::*;
+   ascent! {
+      pub struct Prog;
+      relation r0(i64, i64);
+      relation r1(i64, i64);
+      relation r2(i64);
+      relation r3(i64, i64, i64);
+      r1(((*v1) + 1), v1) <-- for v0 in 2..3, r0(v1, v0) if ((*v1) != 3), if ((*v1) < 6);
+      r2(v0) <-- r0(v0, 3);
+      r3(v3, v3, v1) <-- if let Some(v0) = Some(2), r1(v1, v2), r2(v3);
+      r1(v0, v1) <-- r0(v0, v1), r0(v0, v0), r0(v1, v2);
+      r2(v0) <-- r0(v0, v1), r0(v1, v1);
+      r1(v0, v0) <-- r0(v0, 3);
+   }
+   pub struct Inst { p: Prog, pool: Option<ascent::rayon::ThreadPool> }
+   pub fn make(pool: Option<usize>) -> Box<dyn Driver> {
+      let pool = pool.map(|n| ascent::rayon::ThreadPoolBuilder::new().num_threads(n).build().unwrap());
+      let p = match &pool { Some(pl) => pl.install(|| Default::default()), None => Default::default() };
+      Box::new(Inst { p, pool })
+   }
+   impl Driver for Inst {
+      fn load(&mut self, rel: usize, rows: &[Sexp], append: bool) -> Option<()> {
+         match rel {
+         0 => { let v: Vec<(i64,i64,)> = parse_rows(rows)?; if append { self.p.r0.extend(v) } else { self.p.r0 = v } },
+         1 => { let v: Vec<(i64,i64,)> = parse_rows(rows)?; if append { self.p.r1.extend(v) } else { self.p.r1 = v } },
+         2 => { let v: Vec<(i64,)> = parse_rows(rows)?; if append { self.p.r2.extend(v) } else { self.p.r2 = v } },
+         3 => { let v: Vec<(i64,i64,i64,)> = parse_rows(rows)?; if append { self.p.r3.extend(v) } else { self.p.r3 = v } },
+            _ => return None,
+         }
+         Some(())
+      }
+      fn run(&mut self) { match &self.pool { Some(pl) => { let p = &mut self.p; pl.install(|| p.run()) }, None => self.p.run() } }
+      fn run_here(&mut self) { self.p.run() }
+      fn run_timeout(&mut self, k: usize) -> Option<bool> { let _ = k; None }
+      fn dump(&self) -> String { vec![dump_rel(0, self.p.r0.iter().map(Row::render).collect()), dump_rel(1, self.p.r1.iter().map(Row::render).collect()), dump_rel(2, self.p.r2.iter().map(Row::render).collect()), dump_rel(3, self.p.r3.iter().map(Row::render).collect())].join(" | ") }
+      fn iters(&self) -> String { format!("iters {}", self.p.scc_iters.iter().map(|x| x.to_string()).collect::<Vec<_>>().join(" ")) }
+   }
+}
+
+#[allow(unused, non_snake_case, clippy::all)]
+pub mod m11_ren0 {
+   use ascent::*;
+   use ascent::aggregators::*;
+   use ascent::lattice::{Dual, set::Set};
+   use crate::common::*;
+   ascent! {
+      pub struct Prog;
+      relation rel0_(i64, i64);
+      relation rel1_(i64, i64);
+      relation rel2_(i64, i64);
+      rel2_(x0_, x1_) <-- rel2_(x0_, x1_), rel0_(x0_, x0_), rel2_(x1_, x2_);
+      rel2_(1, x0_) <-- if let Some(x0_) = Some(3), rel1_(x0_, x1_), rel0_(x0_, x0_), for x2_ in 0..4;
+   }
+   pub struct Inst { p: Prog, pool: Option<ascent::rayon::ThreadPool> }
+   pub fn make(pool: Option<usize>) -> Box<dyn Driver> {
+      let pool = pool.map(|n| ascent::rayon::ThreadPoolBuilder::new().num_threads(n).build().unwrap());
+      let p = match &pool { Some(pl) => pl.install(|| Default::default()), None => Default::default() };
+      Box::new(Inst { p, pool })
+   }
+   impl Driver for Inst {
+      fn load(&mut self, rel: usize, rows: &[Sexp], append: bool) -> Option<()> {
+         match rel {
+         0 => { let v: Vec<(i64,i64,)> = parse_rows(rows)?; if append { self.p.rel0_.extend(v) } else { self.p.rel0_ = v } },
+         1 => { let v: Vec<(i64,i64,)> = parse_rows(rows)?; if append { self.p.rel1_.extend(v) } else { self.p.rel1_ = v } },
+         2 => { let v: Vec<(i64,i64,)> = parse_rows(rows)?; if append { self.p.rel2_.extend(v) } else { self.p.rel2_ = v } },
+            _ => return None,
+         }
+         Some(())
+      }
+      fn run(&mut self) { match &self.pool { Some(pl) => { let p = &mut self.p; pl.install(|| p.run()) }, None => self.p.run() } }
+      fn run_here(&mut self) { self.p.run() }
+      fn run_timeout(&mut self, k: usize) -> Option<bool> { let _ = k; None }
+      fn dump(&self) -> String { vec![dump_rel(0, self.p.rel0_.iter().map(Row::render).collect()), dump_rel(1, self.p.rel1_.iter().map(Row::render).collect()), dump_rel(2, self.p.rel2_.iter().map(Row::render).collect())].join(" | ") }
+      fn iters(&self) -> String { format!("iters {}", self.p.scc_iters.iter().map(|x| x.to_string()).collect::<Vec<_>>().join(" ")) }
+   }
+}
+
 fn main() {
-   common::main_loop(&[("m0_ren1", m0_ren1::make as common::Factory), ("m2_perm1", m2_perm1::make as common::Factory), ("m4", m4::make as common::Factory), ("m5_ren0", m5_ren0::make as common::Factory), ("m6_ren1", m6_ren1::make as common::Factory), ("m7_i32", m7_i32::make as common::Factory), ("m8_str", m8_str::make as common::Factory)]);
+   common::main_loop(&[("m0_ren1", m0_ren1::make as common::Factory), ("m2_perm1", m2_perm1::make as common::Factory), ("m4", m4::make as common::Factory), ("m5_ren0", m5_ren0::make as common::Factory), ("m6_ren1", m6_ren1::make as common::Factory), ("m7_i32", m7_i32::make as common::Factory), ("m8_str", m8_str::make as common::Factory), ("m10", m10::make as common::Factory), ("m11_ren0", m11_ren0::make as common::Factory)]);
 }
